@@ -518,6 +518,8 @@ def render_operand(rng, conf, op, labels, sp=None):
         d = DECORATORS[dec['type']]
         return d + s if dec.get('is_prefix', False) else s + d
     if t in ('numeric', 'address', 'numeric_enumeration', 'numeric_bytecode'):
+        if op.get('text'):
+            return op['text']          # the value written as a named constant (chosen by the caller)
         return render_value(rng, op['val'], labels)
     if t == 'relative_address':
         e = render_value(rng, op['val'], labels)
